@@ -4,14 +4,15 @@ from __future__ import annotations
 import ast
 from typing import Any
 
-from sa import ordenum
-from sa.checks.c14 import ENC, _item_loop, cols, summarise
+from sa.casesplit import equivalent
+from sa.checks.c14 import ENC, cols, limit_of, summarise
+from sa.checks.ibl_rules import build_model, c01_rules
 from sa.guards import GuardWalk, is_opaque
 from sa.kern import make_evaluator, py_calls
 from sa.loopsum import LoopSummariser
 from sa.report import Ctx
-from sa.srcmodel import FuncInfo, func_body
-from sa.symterm import (Env, Poly, Unsupported, all_atoms, show,
+from sa.srcmodel import FuncInfo, func_body, inline_locals
+from sa.symterm import (Env, Poly, Unsupported, all_atoms, ite, show,
                         show_cond)
 
 INST = "moptipyapps.binpacking2d.instance"
@@ -55,12 +56,13 @@ def run(ctx: Ctx) -> None:
     repo = ctx.repo
     for enc in ("ibl_encoding_1", "ibl_encoding_2"):
         dec = repo.func(ENC + enc, "_decode")
-        _rotation(ctx, dec, acc)
         for kn, kind in (("__move_down", "down"), ("__move_left", "left")):
             _move_shape(ctx, repo.func(ENC + enc, kn), kind, C)
             _move_lemma(ctx, repo.func(ENC + enc, kn), kind, C,
                         enc.endswith("2"))
-        _decode_rules(ctx, dec, C, enc.endswith("2"))
+        model = build_model(ctx, enc, C)
+        if model is not None:
+            c01_rules(ctx, model, acc, C)
         _wrapper_binding(ctx, enc, dec)
     _dtype(ctx)
     ctx.exhaustive = True
@@ -135,78 +137,6 @@ def _constructor_accepts(ctx: Ctx) -> dict[str, Any]:
             "W": W, "H": H}
 
 
-def _rotation(ctx: Ctx, dec: FuncInfo, acc: dict[str, Any]) -> None:
-    if not acc["ok"]:
-        return
-    loop = _item_loop(dec)
-    swap = None
-    for s in loop.body:
-        if isinstance(s, ast.If) and any(
-                isinstance(x, ast.Assign) and isinstance(
-                    x.targets[0], ast.Tuple) for x in s.body):
-            swap = s
-    if swap is None:
-        ctx.ob("D1.1", dec, loop, False,
-               "no forced rotation `if (w > W) or (h > H): w, h = h, w`",
-               construct="forced rotation")
-        return
-    ev = make_evaluator(ctx.repo, dec)
-    env = Env()
-    w, h = Poly.var("w"), Poly.var("h")
-    env.vars.update({"w": w, "h": h})
-    try:
-        env = ev.stmt(env, swap)
-    except Unsupported as u:
-        ctx.ob("D1.1", dec, swap, False, f"cannot normalise: {u}",
-               construct="forced rotation")
-        return
-    w2, h2 = env.vars["w"], env.vars["h"]
-    W, H = acc["W"], acc["H"]
-    rej = acc["rej"]
-    # the rejection condition is over (width, height) of the instance row;
-    # rename to (w, h): it is symmetric in the two, checked for both
-    # assignments below
-    rts = sorted((Poly.atom(a) for a in all_atoms(rej.cond)
-                  if a[0] == "var" and Poly.atom(a) not in (W, H)),
-                 key=lambda p: repr(p.key()))
-    terms = [w, h, W, H]
-    n_cases = 0
-    bad = None
-    one = Poly.const(1)
-    for m in ordenum.enumerate_models(terms + [one], integer=True):
-        rw, rh, rW, rH, r1 = (m.rank(x) for x in terms + [one])
-        mxr = max(rW, rH)
-        if not (r1 <= rw <= mxr and r1 <= rh <= mxr and r1 <= rW
-                and r1 <= rH):
-            continue
-        for a, b in ((w, h), (h, w)):
-            # evaluate the constructor's rejection with (width,height)=(a,b)
-            sub = {rts[0].as_atom(): a, rts[1].as_atom(): b}
-            mm = ordenum.OrderModel(terms + [one])
-            mm.ranks = m.ranks
-            cond = _subst_cond(rej.cond, sub)
-            if mm.cond(cond):
-                continue           # not a valid instance
-            n_cases += 1
-            fw, fh = mm.select(w2), mm.select(h2)
-            if not (mm.rank(fw) <= rW and mm.rank(fh) <= rH):
-                if bad is None:
-                    bad = mm.describe(["w", "h", "W", "H", "1"])
-            break
-    ctx.count("orderings_enumerated", n_cases)
-    ctx.ob("D1.1", dec, swap, bad is None and n_cases > 0,
-           f"{n_cases} accepted orderings of (w, h, W, H): after the forced "
-           "rotation w <= W and h <= H in every case" if bad is None else
-           f"after the rotation guard the item can still exceed the bin for "
-           f"{bad}", construct="rotation lemma",
-           witness=None if bad is None else {"ordering": bad})
-
-
-def _subst_cond(c: tuple, sub: dict) -> tuple:
-    from sa.symterm import map_atom
-    return map_atom(c, lambda p: p.subst(sub))
-
-
 # ----------------------------------------------------------- D1.2 / D1.3
 def _move_shape(ctx: Ctx, fi: FuncInfo, kind: str, C: dict[str, int]) \
         -> None:
@@ -226,26 +156,29 @@ def _move_shape(ctx: Ctx, fi: FuncInfo, kind: str, C: dict[str, int]) \
     st = dict(env.stores)
     ok = set(st) == {k1, k2}
     detail = f"{name} writes {[(k[0], [show(i) for i in k[1]]) for k in st]}"
-    M = None
+    own1 = Poly.atom(("cell", arr, k1[1]))
+    own2 = Poly.atom(("cell", arr, k2[1]))
+    Ma = limit_of(env.returned)
+    M = Poly.atom(Ma) if Ma is not None else None
+    if ok and M is None:
+        ok = False
+        detail = (f"{name}: the kernel does not return `limit > 0` for a "
+                  "minimum over the blockers")
     if ok:
-        a1, a2 = st[k1].as_atom(), st[k2].as_atom()
-        own1 = Poly.atom(("cell", arr, k1[1]))
-        own2 = Poly.atom(("cell", arr, k2[1]))
-        ok = a1 is not None and a2 is not None and a1[0] == "ite" and \
-            a2[0] == "ite" and a1[1] == a2[1] and a1[3] == own1 and \
-            a2[3] == own2 and (own1 - a1[2]) == (own2 - a2[2])
+        moved = ("lt", Poly.const(0), M)
+        for k, own in ((k1, own1), (k2, own2)):
+            same, why = equivalent(st[k], ite(moved, own - M, own))
+            if not same:
+                ok = False
+                detail = (f"{name}: edge {show(k[1][1])} is not lowered by "
+                          f"the limit exactly when it is positive: {why}")
         if ok:
-            M = own1 - a1[2]
             detail = (f"{name}: both edges are lowered by the same term, so "
                       "the rectangle keeps its size")
     ctx.ob("D1.2", fi, fi.node, ok, detail, construct=f"{name} size")
-    if M is None:
+    if not ok:
         return
-    ma = M.as_atom()
-    own1 = Poly.atom(("cell", arr, k1[1]))
-    guard = st[k1].as_atom()[1]
-    ok3 = ma is not None and ma[0] == "minred" and ma[5] == own1 and \
-        guard == ("lt", Poly.const(0), M)
+    ok3 = Ma[5] == own1
     ctx.ob("D1.3", fi, fi.node, ok3,
            f"{name}: the shift is a minimum that starts at the own "
            f"{'bottom' if kind == 'down' else 'left'} coordinate and is "
@@ -256,224 +189,6 @@ def _move_shape(ctx: Ctx, fi: FuncInfo, kind: str, C: dict[str, int]) \
            construct=f"{name} non-negative")
 
 
-def _decode_rules(ctx: Ctx, dec: FuncInfo, C: dict[str, int],
-                  enc2: bool) -> None:
-    repo = ctx.repo
-    loop = _item_loop(dec)
-    ev = make_evaluator(repo, dec)
-    ev.int_transparent = True
-    W, H = Poly.var("bin_width"), Poly.var("bin_height")
-    w, h = Poly.var("w"), Poly.var("h")
-    ivar = loop.target.elts[0].id if isinstance(
-        loop.target, ast.Tuple) else "i"
-    i = Poly.var(ivar)
-    # ---- all store groups of coordinates: size must be (w, h)
-    groups: list[tuple[ast.AST, dict[int, Poly]]] = []
-
-    def scan(stmts: list[ast.stmt]) -> None:
-        cur: dict[int, Poly] = {}
-        first = None
-        for s in stmts:
-            hit = False
-            if isinstance(s, ast.Assign) and isinstance(
-                    s.targets[0], ast.Subscript) and isinstance(
-                    s.targets[0].value, ast.Name) and \
-                    s.targets[0].value.id == "y":
-                env = Env()
-                env.vars.update({"w": w, "h": h})
-                try:
-                    idx = ev.index(env, s.targets[0].slice)
-                    val = ev.num(env, s.value)
-                    cv = idx[1].const_value()
-                    if idx[0] == i and cv is not None and int(cv) in (
-                            C["IDX_LEFT_X"], C["IDX_BOTTOM_Y"],
-                            C["IDX_RIGHT_X"], C["IDX_TOP_Y"]):
-                        cur[int(cv)] = val
-                        first = first or s
-                        hit = True
-                except Unsupported:
-                    pass
-            if not hit:
-                for fld in ("body", "orelse"):
-                    sub = getattr(s, fld, None)
-                    if isinstance(sub, list) and sub and isinstance(
-                            sub[0], ast.stmt):
-                        scan(sub)
-        if cur:
-            groups.append((first, cur))
-    scan(loop.body)
-    ctx.floor(f"coordinate_store_groups_{dec.module.name[-1]}",
-              len(groups), 2)
-    drops = [g for _, g in groups if g.get(C["IDX_BOTTOM_Y"]) == H]
-    resets = [g for _, g in groups if g.get(C["IDX_BOTTOM_Y"]) ==
-              Poly.const(0) and g.get(C["IDX_LEFT_X"]) == Poly.const(0)]
-    ctx.ob("D1.7", dec, loop, len(drops) >= 1 and len(resets) >= 1 and len(
-        drops) + len(resets) == len(groups),
-           "every placement is either a drop with bottom = bin height "
-           "(above all kept boxes) or the reset to the bottom-left corner "
-           "of a fresh bin", construct="initial positions disjoint")
-    for node, g in groups:
-        full = set(g) == {C["IDX_LEFT_X"], C["IDX_BOTTOM_Y"],
-                          C["IDX_RIGHT_X"], C["IDX_TOP_Y"]}
-        ok = full and g[C["IDX_RIGHT_X"]] - g[C["IDX_LEFT_X"]] == w and \
-            g[C["IDX_TOP_Y"]] - g[C["IDX_BOTTOM_Y"]] == h
-        ctx.ob("D1.2", dec, node, ok,
-               "coordinates are set so that right-left = w and top-bottom "
-               "= h" if ok else
-               "a coordinate assignment does not give the rectangle the "
-               f"size (w, h): { {k: show(v) for k, v in sorted(g.items())} }",
-               construct="size at placement")
-        # left/bottom non-negative given w <= W (D1.1)
-        lb = [g.get(C["IDX_LEFT_X"]), g.get(C["IDX_BOTTOM_Y"])]
-        okn = full and all(v in (Poly.const(0), W - w, H, W, H - h)
-                           for v in lb)
-        ctx.ob("D1.3", dec, node, okn,
-               "left and bottom are 0, W-w or H: non-negative by the "
-               "rotation lemma" if okn else
-               f"left/bottom = {[show(v) for v in lb if v is not None]} "
-               "not known to be non-negative",
-               construct="placement non-negative", nontrivial=False)
-    # ---- keep path implies inside (all orderings)
-    yr = Poly.atom(("cell", "y", (i, Poly.const(C["IDX_RIGHT_X"]))))
-    yt = Poly.atom(("cell", "y", (i, Poly.const(C["IDX_TOP_Y"]))))
-    cond = None
-    node: ast.AST = loop
-    keep_when = True
-    if not enc2:
-        for s in loop.body:
-            if isinstance(s, ast.If) and any(
-                    isinstance(x, ast.Assign) and isinstance(
-                        x.targets[0], ast.Name)
-                    and x.targets[0].id == "bin_id" for x in s.body):
-                cond, node, keep_when = s.test, s, False
-    else:
-        for s in ast.walk(loop):
-            if isinstance(s, ast.If) and isinstance(
-                    s.body[-1], ast.Break):
-                cond, node, keep_when = s.test, s, True
-    okk = False
-    detail = "fit test not found"
-    if cond is not None:
-        try:
-            c = ev.cond(Env(), cond)
-            n = 0
-            bad = None
-            for m in ordenum.enumerate_models([yr, W, yt, H]):
-                n += 1
-                if m.cond(c) == keep_when:
-                    if not (m.rank(yr) <= m.rank(W)
-                            and m.rank(yt) <= m.rank(H)):
-                        bad = m.describe(["right", "W", "top", "H"])
-            okk = bad is None
-            detail = (f"on all {n} orderings, the item is kept in the bin "
-                      "only if right <= W and top <= H" if okk else
-                      f"the item is kept although it sticks out: {bad}")
-        except Unsupported as u:
-            detail = f"fit test not order-abstract: {u}"
-    ctx.ob("D1.3", dec, node, okk, detail, construct="keep path inside bin")
-    # ---- D1.4 ids
-    idv = None
-    env = Env()
-    for s in loop.body:
-        if isinstance(s, ast.Assign) and isinstance(
-                s.targets[0], ast.Subscript) and ast.unparse(
-                s.targets[0].value) == "y":
-            try:
-                idx = ev.index(env, s.targets[0].slice)
-                if idx[1].const_value() == C["IDX_ID"]:
-                    idv = ev.num(env, s.value)
-                    idnode = s
-            except Unsupported:
-                pass
-            continue
-        if isinstance(s, (ast.If, ast.Assign, ast.AnnAssign)):
-            try:
-                env = ev.stmt(env, s)
-            except Unsupported:
-                pass
-    item = Poly.var(loop.target.elts[1].id) if isinstance(
-        loop.target, ast.Tuple) else None
-    ok4 = False
-    if idv is not None and item is not None:
-        zero = Poly.const(0)
-        try:
-            ok4 = True
-            for ranks, want in (((0, 1), -item), ((1, 0), item)):
-                m = ordenum.OrderModel([item, zero])
-                m.ranks = ranks
-                if _resolve(idv, m) != want:
-                    ok4 = False
-        except Unsupported:
-            ok4 = False
-    ctx.ob("D1.4", dec, loop, ok4,
-           "the stored id is |x[i]| on both sign branches" if ok4 else
-           f"the stored id is {show(idv) if idv is not None else '?'}",
-           construct="stored id")
-    # ---- D1.5 bin counter protocol
-    assigns = [n for n in ast.walk(dec.node) if isinstance(
-        n, (ast.Assign, ast.AnnAssign)) and isinstance(
-        n.targets[0] if isinstance(n, ast.Assign) else n.target, ast.Name)
-        and (n.targets[0] if isinstance(n, ast.Assign)
-             else n.target).id == "bin_id" and n.value is not None]
-    init = [a for a in assigns if repo.const(dec.module, a.value) == 1]
-    incs = [a for a in assigns if ast.unparse(a.value).replace(
-        " ", "") in ("bin_id+1", "1+bin_id")]
-    rets = [r for r in ast.walk(dec.node) if isinstance(r, ast.Return)]
-    ok5 = len(init) == 1 and len(incs) == len(assigns) - 1 >= 1 and len(
-        rets) == 1 and "bin_id" in ast.unparse(rets[0].value)
-    # each increment is followed (same block) by a store of bin_id as bin
-    for inc in incs:
-        found = False
-        for blk in _blocks(loop):
-            if inc in blk:
-                k = blk.index(inc)
-                rest = blk[k + 1:]
-                found = any(
-                    isinstance(s, ast.Assign) and isinstance(
-                        s.targets[0], ast.Subscript)
-                    and ast.unparse(s.targets[0].value) == "y"
-                    and repo.const(dec.module, s.targets[0].slice.elts[1])
-                    == C["IDX_BIN"] and ast.unparse(s.value) == "bin_id"
-                    for s in rest)
-                if not found and not enc2:
-                    # encoding 1 stores after the if-block
-                    outer = loop.body
-                    found = any(
-                        isinstance(s, ast.Assign) and isinstance(
-                            s.targets[0], ast.Subscript)
-                        and ast.unparse(s.value) == "bin_id"
-                        for s in outer)
-        ok5 = ok5 and found
-    ctx.ob("D1.5", dec, dec.node, ok5,
-           "bin_id starts at 1, is only ever incremented by 1, each new "
-           "value is stored as the bin of the current row, and the kernel "
-           "returns it (range 1..n_items: C13)" if ok5 else
-           "the bin counter protocol is broken (start value, step, missing "
-           "store of a new bin id, or return value)",
-           construct="bin counter protocol")
-
-
-def _resolve(p: Poly, m: ordenum.OrderModel) -> Poly:
-    """Replace every ite atom of `p` by the branch selected under `m`."""
-    sub = {}
-    for a in p.atoms():
-        if a[0] == "ite":
-            sub[a] = _resolve(a[2] if m.cond(a[1]) else a[3], m)
-    return p.subst(sub) if sub else p
-
-
-def _blocks(node: ast.AST) -> list[list[ast.stmt]]:
-    out = []
-    for n in ast.walk(node):
-        for fld in ("body", "orelse"):
-            sub = getattr(n, fld, None)
-            if isinstance(sub, list) and sub and isinstance(
-                    sub[0], ast.stmt):
-                out.append(sub)
-    return out
-
-
-# ------------------------------------------------------------------ D1.6
 def _dtype(ctx: Ctx) -> None:
     repo = ctx.repo
     new = repo.func(INST, "Instance.__new__")
@@ -599,9 +314,7 @@ def _move_lemma(ctx: Ctx, fi: FuncInfo, kind: str, C: dict[str, int],
         ctx.ob("D1.7", fi, fi.node, False, f"cannot summarise: {u}",
                construct=f"{name} preserves non-overlap")
         return
-    ret = env.returned
-    M = ret[2].as_atom() if isinstance(ret, tuple) and ret[0] == "lt" and \
-        isinstance(ret[2], Poly) else None
+    M = limit_of(env.returned)
     if M is None or M[0] != "minred":
         ctx.ob("D1.7", fi, fi.node, False, "kernel limit is not a minimum",
                construct=f"{name} preserves non-overlap")
@@ -771,25 +484,30 @@ def _wrapper_binding(ctx: Ctx, enc: str, dec: FuncInfo) -> None:
                         else n.target
                     if isinstance(tg, ast.Attribute):
                         inst_fields.add(ast.unparse(tg))
-        for p, a in zip(dec.params, calls[0].args):
-            src = ast.unparse(a)
-            if p in (m.params[1], m.params[2]) or p in ("x", "y"):
-                want = {"x": m.params[1], "y": m.params[2]}.get(p, p)
+        roles = ["x", "y", "instance", "bin_width", "bin_height"]
+        for k, (p, a) in enumerate(zip(dec.params, calls[0].args)):
+            # aliases and hoisted temporaries of decode() are looked through
+            src = ast.unparse(inline_locals(m.node, a))
+            role = roles[k] if k < len(roles) else p
+            if role in ("x", "y"):
+                want = {"x": m.params[1], "y": m.params[2]}[role]
                 if src != want:
                     problems.append(f"kernel parameter `{p}` receives "
                                     f"`{src}`")
-            elif p == "instance":
+            elif role == "instance":
                 if src not in inst_fields:
-                    problems.append(f"kernel parameter `instance` receives "
-                                    f"`{src}`, not the encoding's instance")
-            elif p in ("bin_width", "bin_height"):
-                if not any(src == f"{f}.{p}" for f in inst_fields):
                     problems.append(f"kernel parameter `{p}` receives "
-                                    f"`{src}`, not the instance's {p}")
+                                    f"`{src}`, not the encoding's instance")
+            elif role in ("bin_width", "bin_height"):
+                if not any(src == f"{f}.{role}" for f in inst_fields):
+                    problems.append(f"kernel parameter `{p}` receives "
+                                    f"`{src}`, not the instance's {role}")
     # the number of bins returned by the kernel is stored in the packing
-    tg_ok = any(isinstance(n, ast.Assign) and calls and n.value is calls[0]
-                and ast.unparse(n.targets[0]) == f"{m.params[2]}.n_bins"
-                for n in ast.walk(m.node))
+    tg_ok = any(isinstance(n, ast.Assign) and calls and len(
+        n.targets) == 1 and ast.unparse(
+        n.targets[0]) == f"{m.params[2]}.n_bins" and ast.dump(
+        inline_locals(m.node, n.value)) == ast.dump(
+        inline_locals(m.node, calls[0])) for n in ast.walk(m.node))
     if not tg_ok:
         problems.append("the bin count returned by the kernel is not stored "
                         "as y.n_bins")
